@@ -105,11 +105,14 @@ type renderer struct {
 	depth        int
 	lastPaste    string
 	lastPasteKey string
+	incSeq       int
 	dir          string // directory (project-relative, with trailing slash) of the file being rendered
 	baseLevel    int
 	noInclude    int // >0 inside explicit parentheses: INCLUDE runs are only cut from implicitly nested children
 	// afterText is true when the previous thing was free text (description): no comment/blank may follow directly
 	afterText bool
+	// afterBody is true directly after a schema / enum / regex body
+	afterBody bool
 }
 
 func (rd *renderer) indent(level int) string {
@@ -138,13 +141,30 @@ func (rd *renderer) filler(level int) {
 		return
 	}
 	for st.chance(st.Comments) {
-		switch st.pick(4) {
+		v := st.pick(9)
+		if rd.afterBody && v >= 3 && v <= 7 {
+			// directly after a schema / enum body the schema dependency itself reads the comment (it measures the
+			// body including trailing comments) and mishandles '#', '##' and '######': that is exercised on purpose
+			// by C05's own family, not by every rendering
+			v = 1
+		}
+		switch v {
 		case 0:
 			rd.sb.WriteString("\n")
 		case 1:
 			rd.sb.WriteString(strings.Repeat(" ", level) + "# a comment\n")
 		case 2:
 			rd.sb.WriteString(strings.Repeat(" ", level) + "### block\n comment ###\n")
+		case 3:
+			rd.sb.WriteString(strings.Repeat(" ", level) + "#\n") // a comment without text
+		case 4:
+			rd.sb.WriteString("##\n")
+		case 5:
+			rd.sb.WriteString(strings.Repeat(" ", level) + "# GET /x # y ## z\n")
+		case 6:
+			rd.sb.WriteString("######\n") // an empty block comment
+		case 7:
+			rd.sb.WriteString(strings.Repeat(" ", level) + "###\n#\n###\n")
 		default:
 			rd.sb.WriteString("   \t\n")
 		}
@@ -217,6 +237,7 @@ func (rd *renderer) directive(level int, keyword string, params []string, annota
 	rd.sb.WriteString(rd.annot(annotation))
 	rd.eol(annotation == "" || true)
 	rd.afterText = false
+	rd.afterBody = false
 	return begin
 }
 
@@ -358,6 +379,7 @@ func (rd *renderer) bodyLinesB(level int, lines []string, allowBorders bool) {
 		rd.eol(true)
 	}
 	rd.afterText = false
+	rd.afterBody = true
 }
 
 // indentFixed: schema bodies keep one indentation per body (their bytes are not directive lines).
@@ -445,7 +467,8 @@ func parentLabel(label string) string {
 
 // macroSet collects the macro bodies produced by paste extraction.
 type macroSet struct {
-	n     int
+	n           int
+	repeatNames bool
 	files []string // produced include files (project-relative paths), in creation order
 	order []string
 	bufs  map[string]*renderer
@@ -484,6 +507,18 @@ func (rd *renderer) elem(label, kind string, level int, f func(r *renderer, leve
 			rel := fmt.Sprintf("inc%d.jst", rd.macros.n)
 			if rd.macros.n%3 == 0 {
 				rel = fmt.Sprintf("d%d/inc%d.jst", rd.macros.n, rd.macros.n)
+			}
+			if rd.macros.repeatNames {
+				// the same written name in every directory: part1.jst, sub/part2.jst… counted per including file
+				rd.incSeq++
+				rel = fmt.Sprintf("sub/part%d.jst", rd.incSeq)
+				if rd.incSeq%2 == 0 {
+					rel = fmt.Sprintf("part%d.jst", rd.incSeq)
+				}
+				for rd.macros.bufs[rd.dir+rel] != nil {
+					rd.incSeq++
+					rel = fmt.Sprintf("sub/part%d.jst", rd.incSeq)
+				}
 			}
 			name = rd.dir + rel
 			sub.dir = rd.dir
@@ -816,11 +851,13 @@ type RenderOpts struct {
 	MacrosFirst bool
 	// NoHeader omits the JSIGHT line (included files).
 	NoHeader bool
+	// RepeatIncludeNames makes the cut files reuse the same written names in different directories.
+	RepeatIncludeNames bool
 }
 
 // RenderWith renders with options.
 func RenderWith(m *Model, o RenderOpts) *Rendered {
-	rd := &renderer{st: o.Style, paste: o.Paste, macros: &macroSet{bufs: map[string]*renderer{}}}
+	rd := &renderer{st: o.Style, paste: o.Paste, macros: &macroSet{bufs: map[string]*renderer{}, repeatNames: o.RepeatIncludeNames}}
 	for _, b := range m.Blocks {
 		rd.block(b)
 	}
